@@ -815,6 +815,11 @@ func checkC15(c *Check) {
 	// the *_action directives of authorize_sender are parsed by the shared action parser: a `reject` that loses its
 	// flag there is an `ignore` (the verdict is computed, logged, and the message goes on)
 	c06ActionParsed(c, "R10")
+	c15FileStampIsMTime(c, "R12")
+	// a check runs in a goroutine whose recover() only logs: a panic inside the check is a check that "passed". The
+	// address validators the check calls on header content are total (C17.R9)
+	c.Rule("R13", "the address helpers authorize_sender applies to header content cannot panic: every index / slice operation in framework/address is in bounds (a panicking check goroutine is recovered and counts as passed) (C17.R9)", 0)
+	boundsRule(c, "R13", []string{"framework/address"})
 	// which source block – and so which checks – a sender gets is decided on the normalised address, domain rule
 	// included: a spelling that misses `source example.org { check { authorize_sender } }` (trailing dot, case) falls
 	// through to default_source and is never asked for authorization
